@@ -11,8 +11,12 @@ import (
 // documents that are valid by construction or carry 1-3 injected faults.
 func buildPoolsGen(r *gen.Rng, s *Session) {
 	nFaulty := r.Weighted([]int{3, 3, 1})
-	p := gen.GenPoolFor(r, nFaulty, r.Range(1, 6), 7)
+	nVar := r.Weighted([]int{3, 2, 1})
+	p := gen.GenPoolFor(r, nFaulty, nVar, r.Range(1, 6), 7)
 	s.Schemas = append(s.Schemas, NamedText{"gen.graphql", p.Schema})
+	for i, v := range p.Variants {
+		s.Schemas = append(s.Schemas, NamedText{fmt.Sprintf("gen-variant%d.graphql", i), v})
+	}
 	for i, f := range p.FaultySchema {
 		s.Schemas = append(s.Schemas, NamedText{fmt.Sprintf("gen-faulty%d.graphql", i), f})
 	}
@@ -22,6 +26,6 @@ func buildPoolsGen(r *gen.Rng, s *Session) {
 // c11PoolGen: one generated schema that loads, and documents over it, most of
 // them valid (coercion, argument maps and formatting need validated documents).
 func c11PoolGen(r *gen.Rng) (NamedText, []string) {
-	p := gen.GenPoolFor(r, 0, r.Range(2, 8), 3)
+	p := gen.GenPoolFor(r, 0, 0, r.Range(2, 8), 3)
 	return NamedText{"gen.graphql", p.Schema}, p.Docs
 }
